@@ -203,7 +203,7 @@ func propSuppression(c *Case) {
 			}
 
 			// a value built earlier has to stay fresh for the TTL it was stored with
-			if now.UnixNano() <= freshUntil {
+			if now.UnixNano() < freshUntil { // the expiry instant itself may go either way
 				c.Assert(hasFresh, "result-expired-early", "the value built at +%v with TTL %v is not fresh any more at +%v", builtAt.Sub(time.Unix(946684800, 0)), builtTTL, now.Sub(time.Unix(946684800, 0)))
 			}
 
